@@ -52,6 +52,9 @@ type azCase struct {
 type azNode struct {
 	n      *world.Node
 	status string // authorized (record, not fetched) | enrolled | removed
+	// answer: the ciphertext of the credentials the server sent this node when it enrolled (it travels in a
+	// certificate's common name during the handshake, so anybody on the path has it)
+	answer []byte
 }
 
 type azToken struct {
@@ -202,6 +205,7 @@ func (w *azWorld) operator() {
 			if err == nil && resp != nil && len(resp.EncryptedNodeCredentials) > 0 {
 				if _, err := n.n.Handle(resp); err == nil {
 					n.status = "enrolled"
+					n.answer = append([]byte{}, resp.EncryptedNodeCredentials...)
 					r.Count("honest_enrollments:authorize", 1)
 					w.log("enrolled %s", n.n.K.KeyID)
 				}
@@ -236,7 +240,7 @@ func (w *azWorld) operator() {
 				resp, err := registration.FetchNodeCredentials(w.s.Ctx, w.s.Store, req, w.callOpts()...)
 				if err == nil && resp != nil && len(resp.EncryptedNodeCredentials) > 0 {
 					if _, err := n.Handle(resp); err == nil {
-						w.nodes = append(w.nodes, &azNode{n: n, status: "enrolled"})
+						w.nodes = append(w.nodes, &azNode{n: n, status: "enrolled", answer: append([]byte{}, resp.EncryptedNodeCredentials...)})
 						r.Count("honest_enrollments:token", 1)
 						w.log("token-enrolled %s", n.K.KeyID)
 					}
@@ -249,7 +253,7 @@ func (w *azWorld) operator() {
 
 var azNonceKinds = []string{"own", "other-node", "fresh32", "token-unused", "token-used", "token-expired", "token-never-issued", "garbage"}
 var azWrappedKinds = []string{"none", "none", "none", "match", "other-nonce", "other-key", "foreign-wrapper", "garbage"}
-var azRewrappedKinds = []string{"none", "none", "none", "none", "match", "mismatch-nonce", "mismatch-key", "by-removed", "wrong-keyid", "garbage"}
+var azRewrappedKinds = []string{"none", "none", "none", "none", "match", "mismatch-nonce", "mismatch-key", "by-removed", "wrong-keyid", "garbage", "reflected-server-answer"}
 
 type azFetch struct {
 	Cert      string `json:"cert_key"` // authorized | enrolled | removed | fresh
@@ -259,6 +263,8 @@ type azFetch struct {
 	Rewrapped string `json:"rewrapped"`
 	WrapperOn bool   `json:"registration_wrapper_configured"`
 	FlowInfo  string `json:"unsealed_flow_info_in_bundle,omitempty"` // the bundle's own (unsealed) wrapping_registration_flow_info field set by the requester: empty | matching | other
+	BundleID  string `json:"id_field_in_bundle,omitempty"`           // the bundle's id field (the server derives it; honest nodes leave it empty): own | other-node | arbitrary
+	PrevKey   string `json:"previous_key_in_bundle,omitempty"`       // the bundle's previous_certificate_public_key_pkix set by the requester: other-node | random
 }
 
 // fetch assembles one well-signed request, predicts and judges
@@ -353,6 +359,27 @@ func (w *azWorld) fetch(step int) {
 		f.FlowInfo = "other"
 		info.WrappingRegistrationFlowInfo = &types.WrappingRegistrationFlowInfo{CertificatePublicKeyPkix: world.NewKeys().Pkix, Nonce: world.RandBytes(32)}
 	}
+	// --- fields of the bundle the server is meant to fill in or derive itself ---------------------------
+	switch w.rng.Intn(8) {
+	case 0:
+		f.BundleID, info.Id = "own", keys.KeyID
+	case 1:
+		if o := w.pick("enrolled", "authorized"); o != nil && o != id {
+			f.BundleID, info.Id = "other-node", o.n.K.KeyID
+		} else {
+			f.BundleID, info.Id = "arbitrary", fmt.Sprintf("not-a-key-id-%x", world.RandBytes(4))
+		}
+	case 2:
+		f.BundleID, info.Id = "arbitrary", fmt.Sprintf("not-a-key-id-%x", world.RandBytes(4))
+	}
+	switch w.rng.Intn(8) {
+	case 0:
+		if o := w.pick("enrolled", "authorized"); o != nil && o != id {
+			f.PrevKey, info.PreviousCertificatePublicKeyPkix = "other-node", o.n.K.Pkix
+		}
+	case 1:
+		f.PrevKey, info.PreviousCertificatePublicKeyPkix = "random", world.NewKeys().Pkix
+	}
 	req := world.Sign(info, keys.Priv)
 	// --- re-wrapped registration info ---------------------------------------------
 	f.Rewrapped = azRewrappedKinds[w.rng.Intn(len(azRewrappedKinds))]
@@ -405,6 +432,15 @@ func (w *azWorld) fetch(step int) {
 		if o := w.pick("enrolled"); o != nil {
 			req.RewrappingKeyId = o.n.K.KeyID
 		}
+	case "reflected-server-answer":
+		// the server's own answer to this node, sent back as if the node had re-sealed registration info
+		// for itself (same shared key, same associated data): it is no registration info
+		if id == nil || len(id.answer) == 0 {
+			f.Rewrapped = "none"
+			break
+		}
+		req.RewrappedWrappingRegistrationFlowInfo = append([]byte{}, id.answer...)
+		req.RewrappingKeyId = id.n.K.KeyID
 	}
 
 	// ---- oracle -----------------------------------------------------------------
@@ -414,8 +450,14 @@ func (w *azWorld) fetch(step int) {
 	allowedC := (wrappedMatches && w.wrapperOn) || (rewrapMatches && via != nil && via.status == "enrolled")
 	allowed := allowedA || allowedB || allowedC
 	before := map[string]bool{}
+	others := map[string]*types.NodeInformation{} // every record but the one of this request's certificate key
 	for _, idn := range w.s.NodeIDs() {
 		before[idn] = true
+		if idn != keys.KeyID {
+			if o, _ := w.s.LoadNode(idn); o != nil {
+				others[idn] = o
+			}
+		}
 	}
 
 	var resp *types.FetchNodeCredentialsResponse
@@ -453,6 +495,28 @@ func (w *azWorld) fetch(step int) {
 	}
 	sort.Strings(newIDs)
 	w.log("fetch %s -> creds=%v err=%v", engine.J(f), got, err != nil)
+	// whatever the verdict on the request: a record it creates is the record of its certificate key (that is
+	// what "a node record for its certificate key" means to every later request and to the operator who
+	// removes a node by its key ID), and the records of other keys are not its business
+	for _, idn := range newIDs {
+		if idn != keys.KeyID {
+			r.Violation("record-under-foreign-id:id-field="+orDefault(f.BundleID, "none")+",nonce="+f.Nonce+",wrapped="+f.Wrapped+",rewrapped="+f.Rewrapped, fmt.Sprintf("the request created a node record under ID %q, which is not the key ID %q of its certificate key", idn, keys.KeyID), w.witness(f))
+		}
+	}
+	for idn, o := range others {
+		if now, _ := w.s.LoadNode(idn); now == nil || !proto.Equal(o, now) {
+			r.Violation("other-record-changed:id-field="+orDefault(f.BundleID, "none")+",nonce="+f.Nonce+",wrapped="+f.Wrapped+",rewrapped="+f.Rewrapped, fmt.Sprintf("the request (certificate key ID %q) changed or removed the stored record %q of another key (credentials issued=%v)", keys.KeyID, idn, got), w.witness(f))
+		}
+	}
+	if f.BundleID != "" {
+		r.Count("requests_with_id_field_set:"+f.BundleID, 1)
+		if got {
+			r.Count("requests_with_id_field_set:credentials_issued", 1)
+		}
+	}
+	if f.PrevKey != "" {
+		r.Count("requests_with_previous_key_set:"+f.PrevKey, 1)
+	}
 	switch {
 	case got && !allowed:
 		key := fmt.Sprintf("unauthorized-credentials:cert=%s,enc=%s,nonce=%s,wrapped=%s,rewrapped=%s,wrapper-configured=%v,unsealed-flow-info=%s", f.Cert, f.Enc, f.Nonce, f.Wrapped, f.Rewrapped, f.WrapperOn, orDefault(f.FlowInfo, "none"))
